@@ -38,14 +38,10 @@ stage 'states'   every monitored state of analytic binary and ternary precipitat
                  temperature up to 1 K away from the one Rcrit was computed at; in those states Rcrit is replaced by the interval
                  [Rcrit(T - 1 K), Rcrit(T + 1 K)] computed from the analytic backend; isothermal and ternary states are checked exactly.
 """
-import itertools
-import math
-
 PROPERTY = 'C12'
 LEVEL = 'exploration'
 
 np = None
-R_GAS = 8.314
 
 # ------------------------------------------------------------------------------------------------------------------
 # tolerances / bands
